@@ -7,11 +7,26 @@ import WntrModel.Lemmas.Sched
 namespace Wntr.PresolveProg
 open Wntr.Sched Wntr.Gen.PresolveShape
 
-/-- the list built before the loop is `presolveDue` (two stable sorts, first-step override) -/
-theorem generated_prologue_is_presolveDue (cfg : Cfg) (first : Bool) (s : St) :
+/-- the clamp of /repo 7d8c4ce1 is the identity on a backtrack that already lies inside the step -/
+theorem clamp_id_of_inside (b sim prev : Int) (h0 : 0 ≤ b) (h1 : b < sim - prev) :
+    min (max b 0) (max (sim - prev - 1) 0) = b := by omega
+
+/-- the list built before the loop is `presolveDue` (two stable sorts, first-step override; on later steps every
+backtrack is clamped into the step, which is the identity for time conditions by `backtrack_inside_step`) -/
+theorem generated_prologue_is_presolveDue (cfg : Cfg) (first : Bool) (s : St) (hlt : s.prevTime < s.simTime) :
     runPrologue cfg first s prologue = presolveDue cfg first s := by
   unfold runPrologue prologue presolveDue
-  cases first <;> rfl
+  cases first with
+  | true => rfl
+  | false =>
+    simp only [List.foldl_cons, List.foldl_nil, Pro.run, Bool.false_eq_true, if_false]
+    show List.map _ (sortDue (check cfg.startClock s.prevTime s.simTime cfg.presolve)) = _
+    conv_rhs => rw [← List.map_id (sortDue (check cfg.startClock s.prevTime s.simTime cfg.presolve))]
+    apply List.map_congr_left
+    intro d hd
+    have := check_mem hlt (mem_sortDue.1 hd)
+    have hb := clamp_id_of_inside d.back s.simTime s.prevTime this.2.1 this.2.2
+    cases d; simp only at hb ⊢; rw [hb]; rfl
 
 /-- what one pass of the generated loop leaves: `break` = done, else next iteration -/
 def stepOf (p : PS) : StepRes := if p.broke then .done p.s else .cont p.cnt p.s
@@ -111,9 +126,9 @@ theorem generated_loop_is_presolveLoop (cfg : Cfg) (ref : Vals) (due : List Due)
 
 /-- **the whole method as regenerated from the source is the hand-written `presolve`**: generated prologue, then the
 generated loop with the reference point taken at entry -/
-theorem generated_method_is_presolve (cfg : Cfg) (first : Bool) (s : St) :
+theorem generated_method_is_presolve (cfg : Cfg) (first : Bool) (s : St) (hlt : s.prevTime < s.simTime) :
     interpLoop cfg s.vals (runPrologue cfg first s prologue) first
         (presolveFuel cfg (runPrologue cfg first s prologue) s) 0 s = presolve cfg first s := by
-  rw [generated_loop_is_presolveLoop, generated_prologue_is_presolveDue, presolve_eq]
+  rw [generated_loop_is_presolveLoop, generated_prologue_is_presolveDue cfg first s hlt, presolve_eq]
 
 end Wntr.PresolveProg
